@@ -196,6 +196,29 @@ Theorem C12_spawn_no_descriptor_left :
 Proof. exact spawn_no_leak. Qed.
 Print Assumptions C12_spawn_no_descriptor_left.
 
+(* ---- the caller's signal mask ------------------------------------------- *)
+
+(* uv_spawn blocks nearly every signal around fork() and restores the caller's
+   mask before it looks at fork's result: on every path - success, EINVAL,
+   socketpair/pipe2 failure, fork failure, exec failure - the mask of the
+   calling thread on return is the mask it had on entry (so SIGCHLD stays
+   deliverable and later children are reported). *)
+Theorem C12_spawn_restores_sigmask :
+  forall sp wo, r_mask (fst (uv_spawn sp wo)) = s_mask sp.
+Proof. exact spawn_restores_sigmask. Qed.
+Print Assumptions C12_spawn_restores_sigmask.
+
+(* meanwhile the forked child starts with every non-fatal signal blocked in
+   addition to what the caller had blocked *)
+Theorem C12_fork_child_mask :
+  forall m sig, 1 <= sig < length m ->
+  match fst (fork_sigmask m false) with
+  | Some cm => nth sig cm false = (nth sig m false || fork_blocked sig)
+  | None => False
+  end.
+Proof. exact fork_child_mask. Qed.
+Print Assumptions C12_fork_child_mask.
+
 (* ---- exits ---------------------------------------------------------------- *)
 
 (* For every script of spawns, closes and uv__wait_children passes and every
@@ -225,8 +248,8 @@ Print Assumptions C12_reaped_once.
 
 Example C12_exit_example :
   exits (snd (run linit
-     [OSpawn 0 (mkSpec [] [] true 100 10 None false false None) [];
-      OSpawn 1 (mkSpec [] [] true 101 20 None false false None) [];
+     [OSpawn 0 (mkSpec [] [] true 100 10 None false false None []) [];
+      OSpawn 1 (mkSpec [] [] true 101 20 None false false None []) [];
       OScan [WZero; WEintr; WPid 15%Z];
       OScan [WPid 768%Z]])) = [(1, 0%Z, 15%Z); (0, 3%Z, 0%Z)].
 Proof. vm_compute. reflexivity. Qed.
